@@ -659,13 +659,15 @@ sds_read (SF_PRIVATE *psf, SDS_PRIVATE *psds, int *ptr, int len)
 {	int	count, total = 0 ;
 
 	while (total < len)
-	{	if (psds->read_block * psds->samplesperblock >= psds->frames)
-		{	memset (&(ptr [total]), 0, (len - total) * sizeof (int)) ;
-			return total ;
-			} ;
+	{	if (psds->read_count >= psds->samplesperblock)
+		{	/* Only at the end once the samples of the last block have been delivered. */
+			if (psds->read_block * psds->samplesperblock >= psds->frames)
+			{	memset (&(ptr [total]), 0, (len - total) * sizeof (int)) ;
+				return total ;
+				} ;
 
-		if (psds->read_count >= psds->samplesperblock)
 			psds->reader (psf, psds) ;
+			} ;
 
 		count = (psds->samplesperblock - psds->read_count) ;
 		count = (len - total > count) ? count : len - total ;
